@@ -143,3 +143,24 @@ Definition watch_outcome (F : obj -> bool) (listed : list obj) (log : list event
   | Panic => Panic
   | Ok (c0, _) => Ok (fold_left (fun c ev => fst (do_update F c ev)) log c0)
   end.
+
+(* the deterministic overflow history used by the correspondence: the
+   controller takes the first entry and is then busy (a slow filter) while k
+   further entries arrive and are taken by the watcher; afterwards it applies
+   what the channel holds *)
+Fixpoint wrepeat (n : nat) (l : list wact) : list wact :=
+  match n with O => [] | S n' => l ++ wrepeat n' l end.
+
+Definition busy_burst (cap k : nat) : list wact :=
+  [WEmit; WDeliver; WTake; WApply] ++ wrepeat k [WEmit; WDeliver; WTake] ++ wrepeat cap [WApply].
+
+(* apply as many buffered entries as there are: WApply on an empty channel is
+   not enabled, so the tail of the schedule is cut to what is there *)
+Fixpoint wrun_lenient (s : wst) (l : list wact) : wst :=
+  match l with
+  | [] => s
+  | a :: l' => match wstep s a with Some s' => wrun_lenient s' l' | None => wrun_lenient s l' end
+  end.
+
+Definition busy_burst_outcome (cap k : nat) : list nat * nat :=
+  let s := wrun_lenient (winit cap) (busy_burst cap k) in (w_applied s, w_lost s).
